@@ -41,6 +41,11 @@ class LedgerArray:
         ext = tuple(k.stop - k.start for k in key)
         n = anp._prod(ext) * anp._itemsize(self.dtype)
         anp.LEDGER.transient(n * self.copies.read, f"read-copies {self.name}")
+        import numpy as np
+
+        dt = np.dtype(self.dtype)
+        if dt.fields:  # a structured array is stored as a group of per-field arrays and read as a dict of blocks (ZarrV3ArrayGroup.__getitem__)
+            return {f: Block(ext, dt.fields[f][0]) for f in dt.fields}
         return Block(ext, self.dtype)
 
     def __setitem__(self, key, value):
@@ -55,6 +60,24 @@ class Block(anp.AArr):
     """a chunk read from storage: owns its buffer"""
 
     _owns = True
+
+    def at(self, idx):
+        return ("blk",)
+
+    def field(self, name):
+        return FieldOf(self, name)
+
+
+class FieldOf(anp.AArr):
+    """one field of a structured block (cubed reads a structured array as a dict of per-field arrays): no new buffer, keeps the
+    block alive, has the FIELD's dtype (so that results computed from it are sized with the field's item size)"""
+
+    def __init__(self, base, name):
+        import numpy as np
+
+        dt = np.dtype(base.dtype)
+        super().__init__(base.shape, dt.fields[name][0] if dt.fields else dt)
+        self.base = base
 
     def at(self, idx):
         return ("blk",)
@@ -169,7 +192,10 @@ def ledger_bound(scenario, optimize, **kw):
             pass
             anp.LEDGER.reset(True)
             try:
-                apply_blockwise(list(coords), config=spec)
+                try:
+                    apply_blockwise(list(coords), config=spec)
+                except (TypeError, NotImplementedError) as ex:  # an accepted plan's task raising is not a refusal: the stub lacks something
+                    raise anp.Unsupported(f"task of {opname} raised {type(ex).__name__}: {str(ex)[:200]}") from ex
                 highs = list(anp.LEDGER.highs)
                 events = list(anp.LEDGER.events)
             finally:
@@ -264,6 +290,14 @@ def obligations(tier):
                      allowed=c01.ALLOWED, setup=c01.setup, functions=fns, wall_s=wall,
                      bounds=f"x[::step] with n <= {4*N}, chunks <= {N+3}, step 2..3: selection + merge_chunks (fused when optimize=1), every block",
                      stubs=["anp Ledger"], witness_rule=lambda m: m["n"] >= 2 * m["c"], public_replay=replay_strided_selection if opt else None))
+
+    _, vs = c01.EXTRA_SCENARIOS["reduce[axis0-2d,widening]"]
+    for opt in (0, 1):
+        o.append(Obl(f"ledger[reduce[axis0-2d,widening],optimize={opt}]", (lambda opt: lambda **kw: ledger_bound("reduce[axis0-2d,widening]", opt, **kw))(opt),
+                     vs(N) + [("blk0", 0, 4), ("blk1", 0, N)], allowed=c01.ALLOWED + (AssertionError,), setup=c01.setup, functions=fns, wall_s=wall,
+                     bounds=f"sum of int32 / int8, mean and var of float32 over axis 0 of an (n<=4, m<={N}) array with chunks (1..2, 1..{N}) (skinny along the reduced axis); "
+                            "one task of every op at a symbolic block coordinate",
+                     outside="LAPACK buffers, codec internals, interpreter overhead", stubs=["anp Ledger"], witness_rule=lambda m: m["n"] >= 2 and m["c2"] >= 2))
 
     def twin(**kw):
         ledger_bound("sum", 0, **kw)
